@@ -36,13 +36,13 @@ Checks(e) ==
          << <<\A k \in RecKeys(e.recs) : Get(confirmed, k, 0) \notin {1, 3}, "a record whose accept or reject was confirmed by the acknowledgement callback was delivered again">> >>
     [] e.ev = "acks_sent" ->
          << <<Ascending(e.batches), "acknowledgement batches of a partition are not in ascending, non-overlapping offset order">>,
-            <<\A it \in Items(e.batches) : (Terminal(it.t) /\ Terminal(Get(sent, it.k, 0))) => (Get(sent, it.k, 0) = it.t /\ faults > 0),
+            <<\A it \in Items(e.batches) : (Terminal(it.t) /\ Terminal(Get(sent, <<e.m, it.k>>, 0))) => (Get(sent, <<e.m, it.k>>, 0) = it.t /\ faults > 0),
               "a delivered record was acknowledged to the broker twice with a final outcome">>,
             <<\A it \in Items(e.batches) : (Terminal(it.t) /\ Terminal(Get(decided, it.k, 0)) /\ Get(holder, it.k, "") = e.m) => it.t = Get(decided, it.k, 0),
               "a record was acknowledged with a different outcome than the application chose">> >>
     [] e.ev = "flush_ret" ->
          << <<(e.err = "<nil>") => (\A k \in DOMAIN awaiting : k[1] = e.m => awaiting[k] = <<>>), "FlushAcks returned before the callback of an earlier acknowledgement had run">>,
-            <<(e.err = "<nil>" /\ faults = 0) => (\A k \in Get(flushSnap, e.m, {}) : Terminal(Get(sent, k, 0))), "FlushAcks returned although an acknowledgement made before it was never sent">> >>
+            <<(e.err = "<nil>" /\ faults = 0) => (\A k \in Get(flushSnap, e.m, {}) : Terminal(Get(sent, <<e.m, k>>, 0))), "FlushAcks returned although an acknowledgement made before it was never sent">> >>
     [] e.ev = "frame_undecodable" -> << <<FALSE, "a share request frame does not decode">> >>
     [] e.ev = "driver_failed" -> << <<FALSE, "driver died">> >>
     [] OTHER -> <<>>
@@ -56,21 +56,25 @@ Enqueue(aw, m, bs, ps) == IF ps = {} THEN aw ELSE LET p == CHOOSE x \in ps : TRU
    Enqueue(Put(aw, <<m, p>>, Append(Get(aw, <<m, p>>, <<>>), {it \in Items(bs) : it.k[1] = p})), m, bs, ps \ {p})
 RECURSIVE ApplySent(_, _)
 ApplySent(f, its) == IF its = {} THEN f ELSE LET it == CHOOSE x \in its : TRUE IN ApplySent(IF Terminal(it.t) THEN Put(f, it.k, it.t) ELSE f, its \ {it})
-RECURSIVE Callback(_, _, _, _)   \* returns <<awaiting', confirmed'>>
-Callback(aw, cf, m, rs) == IF rs = <<>> THEN <<aw, cf>> ELSE
+(* what a member has sent for its current delivery of a record; an acknowledgement that came back with an error was not applied *)
+RECURSIVE MarkSent(_, _, _, _)
+MarkSent(f, m, its, clear) == IF its = {} THEN f ELSE LET it == CHOOSE x \in its : TRUE IN
+   MarkSent(IF Terminal(it.t) THEN Put(f, <<m, it.k>>, IF clear THEN 0 ELSE it.t) ELSE f, m, its \ {it}, clear)
+RECURSIVE Callback(_, _, _, _, _)   \* returns <<awaiting', confirmed', sent'>>
+Callback(aw, cf, sn, m, rs) == IF rs = <<>> THEN <<aw, cf, sn>> ELSE
    LET r == Head(rs) q == Get(aw, <<m, r.p>>, <<>>) IN
-   IF q = <<>> THEN Callback(aw, cf, m, Tail(rs))
-   ELSE Callback(Put(aw, <<m, r.p>>, Tail(q)), IF r.err = "" THEN ApplySent(cf, Head(q)) ELSE cf, m, Tail(rs))
+   IF q = <<>> THEN Callback(aw, cf, sn, m, Tail(rs))
+   ELSE Callback(Put(aw, <<m, r.p>>, Tail(q)), IF r.err = "" THEN ApplySent(cf, Head(q)) ELSE cf, IF r.err = "" THEN sn ELSE MarkSent(sn, m, Head(q), TRUE), m, Tail(rs))
 Apply(e) ==
   CASE e.ev = "reset" -> holder' = EmptyF /\ decided' = EmptyF /\ sent' = EmptyF /\ confirmed' = EmptyF /\ awaiting' = EmptyF /\ faults' = 0 /\ flushSnap' = EmptyF /\ traces' = traces + 1
-    [] e.ev = "polled" -> /\ holder' = PutAll(holder, RecKeys(e.recs), e.m) /\ decided' = PutAll(decided, RecKeys(e.recs), 0) /\ sent' = PutAll(sent, RecKeys(e.recs), 0)
+    [] e.ev = "polled" -> /\ holder' = PutAll(holder, RecKeys(e.recs), e.m) /\ decided' = PutAll(decided, RecKeys(e.recs), 0) /\ sent' = PutAll(sent, {<<e.m, k>> : k \in RecKeys(e.recs)}, 0)
                           /\ U(<<confirmed, awaiting, faults, flushSnap, traces>>)
     [] e.ev = "ack_call" -> /\ decided' = (IF Terminal(e.status) THEN PutAll(decided, {k \in RecKeys(e.recs) : Get(holder, k, "") = e.m /\ ~Terminal(Get(decided, k, 0))}, e.status) ELSE decided)
                             /\ U(<<holder, sent, confirmed, awaiting, faults, flushSnap, traces>>)
-    [] e.ev = "acks_sent" -> /\ sent' = ApplySent(sent, Items(e.batches)) /\ awaiting' = Enqueue(awaiting, e.m, e.batches, Parts(e.batches))
+    [] e.ev = "acks_sent" -> /\ sent' = MarkSent(sent, e.m, Items(e.batches), FALSE) /\ awaiting' = Enqueue(awaiting, e.m, e.batches, Parts(e.batches))
                              /\ U(<<holder, decided, confirmed, faults, flushSnap, traces>>)
-    [] e.ev = "ack_callback" -> /\ LET res == Callback(awaiting, confirmed, e.m, e.results) IN awaiting' = res[1] /\ confirmed' = res[2]
-                                /\ U(<<holder, decided, sent, faults, flushSnap, traces>>)
+    [] e.ev = "ack_callback" -> /\ LET res == Callback(awaiting, confirmed, sent, e.m, e.results) IN awaiting' = res[1] /\ confirmed' = res[2] /\ sent' = res[3]
+                                /\ U(<<holder, decided, faults, flushSnap, traces>>)
     [] e.ev = "flush_call" -> /\ flushSnap' = Put(flushSnap, e.m, {k \in DOMAIN decided : Terminal(decided[k]) /\ Get(holder, k, "") = e.m})
                               /\ U(<<holder, decided, sent, confirmed, awaiting, faults, traces>>)
     [] e.ev \in {"moved", "session_reset", "close_call"} -> faults' = faults + 1 /\ U(<<holder, decided, sent, confirmed, awaiting, flushSnap, traces>>)
